@@ -162,10 +162,11 @@ class ReduceNode(Node):
             "attrs": get_tree(state["content"], load_context, trusted=trusted),
             "args": get_tree(reduce["args"], load_context, trusted=trusted),
             "constructor": TypeNode(
+                # no "__id__": this node is not part of the archive and must not
+                # be memoized among the archive's own ids
                 {
                     "__class__": constructor.__name__,
                     "__module__": get_module(constructor),
-                    "__id__": id(constructor),
                 },
                 load_context,
                 trusted=trusted,
